@@ -35,6 +35,13 @@ E2 bounded enumeration on the real Material / Substance classes.
              re-read after bystander composites sharing its formulas have been constructed and checked; after the last step x and X must follow the closed formulas for the
              final amounts (reference: a dict) and equal those of a freshly constructed composite with these amounts.
 
+  component  "for EVERY composite": every component Substance of every Material built above (material, duality,
+             particle, trace, explicit, string; in histories the final material, every operand, every bystander and
+             the re-read after the bystanders) is read THROUGH its parent - parent.components[expr].data_composite() -
+             for every held proportion of the enumeration (!= 1 in most cases), both parent modes, both isotope modes:
+             sum x = sum X = 100 over its elements, X_i ~ n_i m_i (the 'mass' column of the same table), and x, X equal
+             to those of an independently constructed stand-alone Substance of the same expression.
+
 Oracle (from the statement only): sum x = sum X = 100; number mode: x_i = 100 p_i / sum p, X_i = 100 p_i m_i /
 sum p_j m_j; mass mode: X_i = 100 p_i / sum p, x_i = 100 (p_i/m_i) / sum (p_j/m_j); m_i is the component mass the
 object itself reports in data_components() (that this mass is right is C10's business).
@@ -54,7 +61,9 @@ RULE = ("a case is one (ordered substance tuple, proportion tuple, scaling, norm
         "cases are distinct by construction; non-trivial = at least two components (fractions are not all 100), "
         "duality cases and substance cases count once each; particle: every (ordered tuple of nucleon-bearing / "
         "ordinary substances, proportion tuple, scaling, mode, isotope mode, input form); string: every (spelling tuple, mode, isotope mode); "
-        "history: every (start object, isotope mode, operation sequence), all distinct, none pruned")
+        "history: every (start object, isotope mode, operation sequence), all distinct, none pruned; the component "
+        "substances of every material are read through the parent inside the same case (counted under "
+        "through-parent:*, not as separate cases)")
 ASSUMPTIONS = [
     "the component mass m_i is the one the object reports in data_components() (its correctness is property C10)",
     "x and X agree with the closed formulas to rel 1e-10, sums to abs 1e-9, duality to rel 1e-9",
@@ -200,6 +209,64 @@ def _compare(sub, case, tags, keys, amounts_props, norm, got):
     return None
 
 
+_TP = {}                         # counters of the through-parent reads of this shard (flushed by run_shard)
+
+
+def _through_parent(sub, case, tags, parent, natural):
+    """"For every composite": each component Substance of a Material is itself a composite (of elements).  It is read
+    THROUGH the parent (parent.components[key].data_composite()): its x and X each sum to 100, X_i is proportional
+    to n_i m_i (the 'mass' column of the same table holds n_i m_i), and x, X equal those of an independently
+    constructed stand-alone Substance of the same expression (whose x_i ~ n_i is the 'substance' sub-check) - i.e.
+    they do not depend on the proportion the parent holds the substance with, nor on the parent's mode."""
+    from scinumtools.materials import Substance
+    tags = tags + ["through-parent"]
+    for key, comp in list(parent.components.items()):
+        c = dict(case, component=key)
+        _TP["through-parent:components"] = _TP.get("through-parent:components", 0) + 1
+        try:
+            if float(comp.proportion) != 1.0:
+                _TP["through-parent:proportion!=1"] = _TP.get("through-parent:proportion!=1", 0) + 1
+        except Exception:
+            pass
+        o = outcome(comp.data_composite, quantity=False)
+        if o[0] == "err":
+            return failure(sub, c, "tables of the component", list(o), tags, "component:raises:" + o[1])
+        tab = o[1]
+        try:
+            els = [k for k in tab.keys() if k not in ("avg", "sum")]
+            x = [float(tab[k].x) for k in els]
+            X = [float(tab[k].X) for k in els]
+            nm = [float(tab[k].mass) for k in els]
+            sx, sX = float(tab["sum"].x), float(tab["sum"].X)
+        except Exception as e:
+            return failure(sub, c, "x, X, mass of every element", repr(e)[:200], tags, "component:row-missing")
+        if not R.close(sx, 100, 0, 1e-9) or not R.close(sum(x), 100, 0, 1e-9):
+            return failure(sub, c, 100, dict(sum_row=sx, sum_of_rows=sum(x)), tags, "component:sum-x!=100")
+        if not R.close(sX, 100, 0, 1e-9) or not R.close(sum(X), 100, 0, 1e-9):
+            return failure(sub, c, 100, dict(sum_row=sX, sum_of_rows=sum(X)), tags, "component:sum-X!=100")
+        tot = sum(nm)
+        eX = [100 * v / tot for v in nm]
+        if any(not R.close(a, b, 1e-10) for a, b in zip(X, eX)):
+            return failure(sub, c, dict(X=eX), dict(X=X), tags, "component:X-not-proportional-to-n*m")
+        o2 = outcome(lambda: Substance(key, natural=natural).data_composite(quantity=False))
+        if o2[0] == "err":
+            continue                # the stand-alone substance is the business of the 'substance' sub-check
+        ref = o2[1]
+        try:
+            rels = [k for k in ref.keys() if k not in ("avg", "sum")]
+            rx = [float(ref[k].x) for k in rels]
+            rX = [float(ref[k].X) for k in rels]
+        except Exception:
+            continue
+        if rels != els:
+            return failure(sub, c, rels, els, tags, "component:rows-differ-from-standalone")
+        if any(not R.close(a, b, 1e-10) for a, b in zip(x, rx)):
+            return failure(sub, c, dict(x=rx), dict(x=x), tags, "component:x-differs-from-standalone")
+        if any(not R.close(a, b, 1e-10) for a, b in zip(X, rX)):
+            return failure(sub, c, dict(X=rX), dict(X=X), tags, "component:X-differs-from-standalone")
+    return None
+
+
 def check_material(subs, props, scale, norm, natural, duality=False, form="dict"):
     from scinumtools.materials import Material
     case = dict(kind="duality" if duality else "material", subs=list(subs), props=list(props), scale=scale,
@@ -219,6 +286,8 @@ def check_material(subs, props, scale, norm, natural, duality=False, form="dict"
         return failure("fractions", case, "Material constructed", list(o), tags, "raises:" + o[1])
     got = _read(o[1], subs)
     bad = _compare("fractions", case, tags, subs, props, norm, got)
+    if bad is None:
+        bad = _through_parent("fractions", case, tags, o[1], natural)
     if bad or not duality:
         return bad
     # duality: the same material specified by the resulting mass fractions
@@ -235,7 +304,7 @@ def check_material(subs, props, scale, norm, natural, duality=False, form="dict"
             return failure("duality", case, dict(x=x), dict(x=x2), tags, "x-differs")
         if not R.close(X2[i], X[i], 1e-9):
             return failure("duality", case, dict(X=X), dict(X=X2), tags, "X-differs")
-    return None
+    return _through_parent("duality", case, tags + ["rebuilt-from-X"], o2[1], natural)
 
 
 def check_substance(formula, mult, natural):
@@ -271,6 +340,8 @@ def check_string(subs, spellings, norm, natural):
         return failure("string", case, "Material constructed", list(o), tags, "raises:" + o[1])
     got = _read(o[1], subs)
     bad = _compare("string", case, tags, subs, props, norm, got)
+    if bad is None:
+        bad = _through_parent("string", case, tags, o[1], natural)
     if bad:
         return bad
     o2 = outcome(Material, dict(zip(subs, props)), natural=natural, norm_type=_norm(norm))
@@ -321,7 +392,10 @@ def check_explicit(key, pos, norm, natural, via):
         return failure("explicit", case, "tables", list(got), tags, "raises:" + got[1])
     if not R.close(got[0][pos], alone, 1e-12):
         return failure("explicit", case, alone, got[0][pos], tags, "component-mass-differs-from-substance")
-    return _compare("explicit", case, tags, subs, props, norm, got)
+    bad = _compare("explicit", case, tags, subs, props, norm, got)
+    if bad is None:
+        bad = _through_parent("explicit", case, tags, m, natural)
+    return bad
 
 
 def _make(cls, arg, mode, natural):
@@ -425,10 +499,16 @@ def check_history(start, natural, history):
     bad = _partial_reads(case, tags, final, keys, amounts, mode, "after-full-read")
     if bad:
         return bad, amounts
+    if cls == "Material":           # the substances held by the live material, read through it
+        bad = _through_parent("history", case, tags, final, natural)
+        if bad:
+            return bad, amounts
     for role, obj, c in alive:
         ks = list(c)
         bad = _prefixed(_compare("history", case, tags, ks, [c[k] for k in ks], mode, _read(obj, ks)),
                         role + "-changed", role)
+        if bad is None and cls == "Material":
+            bad = _prefixed(_through_parent("history", case, tags, obj, natural), role + "-changed", role)
         if bad:
             return bad, amounts
     o2 = outcome(_make, cls, dict(amounts), mode, natural)
@@ -450,10 +530,14 @@ def check_history(start, natural, history):
         ks = list(pam)
         bad = _prefixed(_compare("history", case, tags, ks, [pam[k] for k in ks], mode, _read(o3[1], ks)),
                         "bystander", "bystander:" + name)
+        if bad is None and cls == "Material":
+            bad = _prefixed(_through_parent("history", case, tags, o3[1], natural), "bystander", "bystander:" + name)
         if bad:
             return bad, amounts
     bad = _prefixed(_compare("history", case, tags, keys, [amounts[k] for k in keys], mode, _read(final, keys)),
                     "after-bystanders", "re-read")
+    if bad is None and cls == "Material":
+        bad = _prefixed(_through_parent("history", case, tags, final, natural), "after-bystanders", "re-read")
     return bad, amounts
 
 
@@ -511,7 +595,11 @@ def _selected(subs, props, scale, norm, nat, win):
 
 
 def run_shard(desc):
+    _TP.clear()
     sh = _run_shard(desc)
+    for k_, n_ in _TP.items():
+        sh.count(k_, n_)
+    _TP.clear()
     if _LEAKS:
         sh.count("module-state-restored", len(_LEAKS))
         sh.add_extra("module_state_leaks", sorted(set(_LEAKS))[:10])
@@ -701,6 +789,9 @@ def finish(total, tier, seed):
                 "pluscomp-existing", "pluscomp-new", "iadd", "imul"):
         if not h.get("history:last:" + key):
             raise HarnessError("vacuous run: no history ends with " + key)
+    for key in ("through-parent:components", "through-parent:proportion!=1"):
+        if not h.get(key):
+            raise HarnessError("vacuous run: no case under " + key)
     hstates = total.sets.get("hstates", set())
     total.states = len(hstates)
     total.max_depth = max(total.sets.get("hdepth", {0}))
@@ -729,6 +820,11 @@ def finish(total, tier, seed):
                            window="all" if tier == "thorough" else
                            "k=2 complete + window %d of %d of k=3" % (seed % NWIN_STR, NWIN_STR)),
         module_state_restored=h.get("module-state-restored", 0),
+        through_parent=dict(component_substances_read=h.get("through-parent:components", 0),
+                            of_which_held_with_proportion_not_1=h.get("through-parent:proportion!=1", 0),
+                            where="every Material of the material / duality / particle / trace / explicit / string "
+                                  "sub-spaces and, in histories, the final material, every operand and bystander",
+                            oracle="sum x = sum X = 100, X_i ~ n_i m_i, x and X equal to a stand-alone Substance"),
         history_bounds=dict(starts=sorted(HIST_STARTS), operations=HIST_OPS, depth=HDEPTH[tier],
                             bystanders={k: sorted(v) for k, v in BYSTANDERS.items()},
                             isotope_modes=dict(abundant="all starts", natural=HIST_NATURAL_TOO),
@@ -763,7 +859,11 @@ MANIFEST = dict(
          "{add existing/new, + sharing/disjoint composite, + component object, * k, +=, *=, partial table "
          "reads} on 5 start objects (most abundant isotopes; the two dictionary materials also with natural "
          "ones), vs closed formulas and a freshly constructed composite, with re-read of operands and of the live "
-         "object after fresh bystander composites sharing its formulas were built.",
+         "object after fresh bystander composites sharing its formulas were built. Every component substance of "
+         "every material built in any of these sub-spaces (incl. history results, operands and bystanders) is also "
+         "read through its parent (material.components[expr].data_composite()) for every held proportion and both "
+         "parent modes: sum x = sum X = 100 over its elements, X_i ~ n_i m_i, and x, X equal to a stand-alone "
+         "Substance of the same expression.",
     note="Trusted: the component masses reported by data_components() (property C10), float() as the meaning of a "
          "proportion spelling. Not covered: the avg row, proportions outside the alphabet, more than 3 components in "
          "a constructor, histories beyond the depth bound.",
